@@ -8,11 +8,12 @@ HERE = os.path.dirname(os.path.abspath(__file__))
 VERIF = os.path.dirname(HERE)
 sys.path.insert(0, os.path.join(VERIF, "harness"))
 props = [json.loads(l) for l in open(os.path.join(VERIF, "properties.jsonl"))]
+claimed = set(open(os.path.join(HERE, "claimed.txt")).read().split())
 checks, na = [], []
 for p in props:
     pid = p["id"]
     path = os.path.join(VERIF, "harness", "props", pid.lower() + ".py")
-    if not os.path.exists(path):
+    if pid not in claimed or not os.path.exists(path):
         na.append({"property_id": pid, "reason": "check not built yet (construction in progress, see DESIGN.md section 4 for the plan); nothing is claimed for this property"})
         continue
     mod = importlib.import_module("props." + pid.lower())
